@@ -438,6 +438,26 @@ func oracle(prop string) func(ops, outs []string) *corr.Violation {
 							if refund+credited > pools {
 								add(i, "close-pays-more-than-pools", fmt.Sprintf("refund %d + credited %d > pools %d", refund, credited, pools))
 							}
+							// the contract's own formulas, recomputed by the harness from the snapshot before the close (see
+							// expectedClose): per blobber allocation credited <= challenge reward + cancellation charge share,
+							// and the owner gets the rest
+							if len(status) >= 3 {
+								var expPaid int64
+								for n, t := range strings.Split(status[2], ",") {
+									f := strings.Split(t, ":")
+									if len(f) != 6 || n >= len(pa.bas) {
+										continue
+									}
+									cr, cc, rw := p64(f[1]), p64(f[4]), p64(f[5])
+									expPaid += cc + rw
+									if cr > rw+cc+1 {
+										add(i, "blobbers-overpaid", fmt.Sprintf("blobber b%d credited %d > challenge reward %d (value x pass rate %s/%s x elapsed share) + cancellation charge share %d", pa.bas[n].b, cr, rw, f[2], f[3], cc))
+									}
+								}
+								if refund+int64(len(pa.bas)) < pools-expPaid {
+									add(i, "refund-too-small", fmt.Sprintf("owner received %d < pools %d - prescribed payments %d", refund, pools, expPaid))
+								}
+							}
 							if refund < pools-earnedCap-chargeCap {
 								add(i, "refund-too-small", fmt.Sprintf("owner received %d < pools %d - challenge values %d - charge cap %d", refund, pools, earnedCap, chargeCap))
 							}
